@@ -1,6 +1,6 @@
 --------------------------- MODULE RunCancel_Judge ---------------------------
 (* C11: judges observations of real cancelled / destroyed runs.               *)
-(* obs: [runner, prog, at, nfiles, destroy, r ("verdict"|"err"|"hang"),       *)
+(* obs: [runner, prog, at, nfiles, destroy, frozen, r ("verdict"|"err"|"hang"),       *)
 (*       status, code, err, elapsed (ms), alive (program processes left),     *)
 (*       init_alive]                                                          *)
 EXTENDS Integers, Sequences, FiniteSets, TLC, Json, SequencesExt
@@ -20,9 +20,10 @@ JudgeCancel(o) ==
 \* everything inside dies
 JudgeDestroy(o) ==
   /\ o.r # "hang" /\ o.elapsed <= After(o) + Bound
+  /\ (o.frozen => o.r = "err")          \* the call cannot have completed: it must report the destruction
   /\ \/ o.r = "err" /\ o.err # ""
      \/ o.prog = "quick" /\ Genuine(o)
-     \/ o.prog \in {"open", "ping"} /\ o.r = "ok"         \* the file operation had already completed
+     \/ o.prog \in {"open", "ping", "reset", "delete"} /\ o.r = "ok"         \* the file operation had already completed
   /\ o.alive = 0 /\ ~o.init_alive
 Judge(o) == IF o.destroy THEN JudgeDestroy(o) ELSE JudgeCancel(o)
 Bad == { i \in DOMAIN Obs : ~Judge(Obs[i]) }
